@@ -213,6 +213,18 @@ def check_property(prop, tier, seed, learn=False):
             status = 2
             for x in undecided:
                 lines.append("UNDECIDED property=%s %s" % (prop, x))
+    if tier == "thorough" and status == 0:
+        # cross-check of the proof by a bounded run-time evaluation of the same clauses on the real code
+        from . import replay
+        path, ran = replay.cross_check(prop, seed)
+        if ran:
+            bounded.append({"what": "run-time contract monitor rt/search_%s.py on random histories of the real code (cross-check of the "
+                                    "proof, not counted as proof)" % prop, "bound": "150 s, seed %d" % seed})
+        if path:
+            viol = 1
+            lines.append("VIOLATION property=%s replay=%s" % (prop, path))
+            lines.append("  found by the run-time contract monitor; no proof obligation failed (the contracts do not cover this behaviour)")
+            status = 1
     ev = {
         "property_id": prop, "tier": tier, "seed": seed, "level": "proof",
         "coverage": {
